@@ -583,3 +583,55 @@ Proof.
     destruct (propagate_frame_preserves St init bad trans tr k ans tr' b Hinv Hp Ht) as (Hinv' & HN & Hk & Hfix).
     split; [exact Hinv' |]. intros Hb. apply (ic3_safe_trace St init bad trans tr' k Hinv'); [lia | now apply Hfix].
 Qed.
+
+(** ** blocking a predicate, for ANY representation of the frames.
+
+    [frames_ok] is kept when the frames 0 .. k are strengthened with [not g], provided
+    (1) [g] excludes every "initial" state and (2) for k >= 1 no state of frame k-1 outside [g]
+    steps into [g].  At k = 0 only (1) is needed.
+
+    This is the form that covers the REPAIRED pdr.rs (patches/0001-fix-pdr-init-reads-input.diff),
+    whose frames R_1, R_2, ... over-approximate the states reachable in at least one step: read
+    [init] as "successor of an initial valuation" (decided by the query [R_0 /\ T /\ g'], in which the
+    inputs of the initial step are shared between the init equations and the transition) and
+    [Fr i] as R_{i+1}.  Blocking at R_1 then needs exactly [excludes_init], blocking at R_{k+1} the
+    relative-induction query against R_k in addition; depth 0 is decided separately by the exact
+    query [R_0 /\ bad].  [ic3_safe_sem] gives: no state reachable in >= 1 steps is bad. *)
+Section BlockSem.
+  Variable St : Type.
+  Variable init bad : St -> bool.
+  Variable trans : St -> St -> bool.
+
+  Definition strengthen (Fr : nat -> St -> bool) (k : nat) (g : St -> bool) : nat -> St -> bool :=
+    fun i s => Fr i s && (if i <=? k then negb (g s) else true).
+
+  Lemma frames_mono_le Fr N : frames_ok St init bad trans Fr N ->
+    forall i j s, i <= j -> j <= N -> Fr i s = true -> Fr j s = true.
+  Proof.
+    intros Hok i j s Hij HjN H. induction Hij as [| j Hij IH]; [exact H |].
+    apply (fo_mono _ _ _ _ _ _ Hok j s); [lia |]. apply IH. lia.
+  Qed.
+
+  Theorem strengthen_frames_ok Fr N k g :
+    frames_ok St init bad trans Fr N -> k <= N ->
+    (forall s, init s = true -> g s = false) ->
+    (forall s s', 1 <= k -> Fr (pred k) s = true -> g s = false -> trans s s' = true -> g s' = false) ->
+    frames_ok St init bad trans (strengthen Fr k g) N.
+  Proof.
+    intros Hok Hk Hex Hrel. unfold strengthen. constructor.
+    - intros i s Hi Hs. rewrite (fo_init _ _ _ _ _ _ Hok i s Hi Hs), (Hex s Hs).
+      cbn. now destruct (i <=? k).
+    - intros i s Hi H. apply andb_true_iff in H. destruct H as [Hf Hg].
+      rewrite (fo_mono _ _ _ _ _ _ Hok i s Hi Hf). cbn [andb].
+      destruct (S i <=? k) eqn:E; [| reflexivity]. apply Nat.leb_le in E.
+      assert (E' : (i <=? k) = true) by (apply Nat.leb_le; lia). now rewrite E' in Hg.
+    - intros i s s' Hi H Ht. apply andb_true_iff in H. destruct H as [Hf Hg].
+      rewrite (fo_step _ _ _ _ _ _ Hok i s s' Hi Hf Ht). cbn [andb].
+      destruct (S i <=? k) eqn:E; [| reflexivity]. apply Nat.leb_le in E.
+      assert (E' : (i <=? k) = true) by (apply Nat.leb_le; lia). rewrite E' in Hg.
+      apply negb_true_iff in Hg. rewrite (Hrel s s'); [reflexivity | lia | | exact Hg | exact Ht].
+      apply (frames_mono_le Fr N Hok i (pred k)); [lia | lia | exact Hf].
+    - intros i s Hi H. apply andb_true_iff in H. destruct H as [Hf _].
+      now apply (fo_safe _ _ _ _ _ _ Hok i s).
+  Qed.
+End BlockSem.
